@@ -33,6 +33,7 @@ Proof. intros Hp Ht. unfold X.doc_header, X.common_header, lang, X.epub3. rewrit
   change (assoc (R "xhtml-version") default_params) with (@None str). change (assoc (R "lang") default_params) with (Some (R "en")).
   change (assoc (R "epub-version") default_params) with (@None str). change (has_key (R "epub-css") default_params) with false.
   change (assoc (R "xhtml-favicon") default_params) with (@None str). change (assoc (R "xhtml-css") default_params) with (@None str).
+  cbv iota. change (html_escape (R "en")) with (R "en").
   assert (Htt : balanced_chunk (match title with [] => [] | _ => R "    <title>" ++ title ++ R "</title>" ++ NLs end)).
   { intro S. destruct title as [|c0 r0] eqn:E; [reflexivity|]. rewrite <- E in *. norm. rewrite Ht. norm. reflexivity. }
   destruct (X.epub s); cbn [andb negb orb]; norm; rewrite Htt; norm; reflexivity. Qed.
@@ -230,10 +231,9 @@ Proof. intros HS Hok. pose proof (sd_pa _ _ _ _ HS) as Hp. fold default_params i
   assert (Hopf : balanced_chunk (fst (X.content_opf [] s3)) /\ snd (X.content_opf [] s3) = s3).
   { split.
     - apply content_opf_balanced; try (intro; reflexivity); unfold X.param, lang; rewrite ?Hp3; try (intro; reflexivity).
-      + apply Forall_forall. intros e He. unfold X.chap_entries in He. apply filter_In in He as [He _].
-        rewrite Forall_forall in Hok3. destruct (Hok3 e He) as [Hr _ _]. split; [|exact Hr].
-        apply get_id_no_gt; [apply custom_ids_default; exact Hp3|exact Hr].
-      + rewrite Him3. constructor.
+      apply Forall_forall. intros e He. unfold X.chap_entries in He. apply filter_In in He as [He _].
+      rewrite Forall_forall in Hok3. destruct (Hok3 e He) as [Hr _ _]. split; [|exact Hr].
+      apply get_id_no_gt; [apply custom_ids_default; exact Hp3|exact Hr].
     - unfold X.content_opf. cbv zeta. rewrite Him3. reflexivity. }
   destruct (X.content_opf [] s3) as [opf s4]. cbn [fst snd] in Hopf. destruct Hopf as [Hopf ->].
   set (s5 := s3 <| files ::= fun l => l ++ [(R "EPUB/content.opf", opf)] |>).
@@ -244,7 +244,7 @@ Proof. intros HS Hok. pose proof (sd_pa _ _ _ _ HS) as Hp. fold default_params i
   (* the navigation document *)
   assert (Hnav : balanced_chunk (fst (X.nav_xhtml [] s5)) /\ snd (X.nav_xhtml [] s5) ~~ s5).
   { split.
-    - apply nav_xhtml_balanced; try assumption; unfold X.param, lang; rewrite ?Hp5; try (intro; reflexivity). reflexivity.
+    - apply nav_xhtml_balanced; try assumption; unfold X.param, lang; rewrite ?Hp5; try (intro; reflexivity).
     - unfold X.nav_xhtml. pose proof (toc_string_nomini_eqd X.DNav (mkPo [] [] []) s5 eq_refl) as H. destruct (X.toc_string X.DNav (mkPo [] [] []) s5) as [t sx]. exact H. }
   destruct (X.nav_xhtml [] s5) as [nv s5']. cbn [fst snd] in Hnav. destruct Hnav as [Hnav E5'].
   set (s6 := s5' <| files ::= fun l => l ++ [(R "EPUB/nav.xhtml", nv)] |>).
